@@ -23,7 +23,8 @@ EXPLANATION = (
     "sum(E*O)/sum(O) and the block weight sum(O) for one overlap vector O. KEYS-1: mf_shifts_fp, "
     "h0_prop_fp, norms, normed_overlaps, ene0 are written before they are read. Per-spin constants "
     "multiply the matching spin block. The free-projection typestate (overlap == calc_overlap * norms) "
-    "is proved inductively over the step and block scans."
+    "is proved inductively over the step and block scans. "
+    "CAP-1 on _apply_trotprop_det as in C04. "
 )
 NOT_DECIDED = (
     "the field average, the O(dt^2) error, the Taylor remainder and the values of mf_shifts_fp / "
